@@ -150,6 +150,10 @@ func (s *Solver) ensure(t *Term) {
 		if s.defined[x.id] {
 			continue
 		}
+		if strings.HasPrefix(x.op, "uf:") && !s.declared[x.op] {
+			s.declared[x.op] = true
+			s.sendPath(fmt.Sprintf("(declare-fun uf_%s (%s) Bool)", x.op[3:], sortStr(x.args[0].width)))
+		}
 		s.defined[x.id] = true
 		s.sendPath(fmt.Sprintf("(define-fun t!%d () %s %s)", x.id, sortStr(x.width), x.smtDef()))
 	}
